@@ -19,7 +19,7 @@ def gen_front(rng, max_n=24, objs=(2, 2, 3, 3, 4, 5)):
     """non-dominated fronts: continuous simplex, grid-valued, with constant objectives, tied extremes, duplicates"""
     for _ in range(200):
         M = rng.choice(objs); N = rng.randint(1, max_n)
-        style = rng.choice(["simplex", "simplex", "grid", "grid", "perm", "const", "dups", "tiedext"])
+        style = rng.choice(["simplex", "simplex", "grid", "grid", "perm", "const", "dups", "tiedext", "tinyrange", "hugerange"])
         if style == "simplex":
             F = np.array([[rng.random() for _ in range(M)] for _ in range(N)]); F = F / F.sum(axis=1, keepdims=True)
         elif style == "grid":
@@ -29,6 +29,9 @@ def gen_front(rng, max_n=24, objs=(2, 2, 3, 3, 4, 5)):
             for m in range(M):
                 c = list(range(N)); rng.shuffle(c); cols.append(c)
             F = np.array(cols, dtype=float).T.reshape(N, M)
+        elif style in ("tinyrange", "hugerange"):
+            F = np.array([[rng.random() for _ in range(M)] for _ in range(N)]); F = F / F.sum(axis=1, keepdims=True)
+            F[:, rng.randrange(M)] *= rng.choice([1e-9, 1e-12, 1e-300]) if style == "tinyrange" else rng.choice([1e9, 1e150])
         elif style == "const":
             F = np.array([[rng.random() for _ in range(M)] for _ in range(N)]); F = F / F.sum(axis=1, keepdims=True)
             F[:, rng.randrange(M)] = 0.5
